@@ -2,11 +2,12 @@
 # try_patch.sh <patch.diff> <PROP>... : run checks against a scratch copy of /repo with the patch applied
 p="$1"; shift
 t=$(mktemp -d /tmp/nktry-XXXXXX)
-rsync -a --exclude .git --exclude 'build/*/' --exclude '*.o' --exclude '*.a' /repo/ $t/repo/
+rsync -a --exclude .git --exclude 'build/*/' --exclude '*.o' --exclude '*.a' /repo/ $t/repo/ 2>/dev/null
 if ! patch -p1 -s -d $t/repo -i "$(realpath $p)"; then echo "PATCH-DOES-NOT-APPLY"; rm -rf $t; exit 3; fi
-rc=0
 for prop in "$@"; do
-  NK_REPO=$t/repo NK_NO_EVIDENCE=1 /verif/check $prop | grep -v "^KNOWN-FINDING" | tail -${TAIL:-12}
-  echo "== $prop exit=$?"
+  NK_REPO=$t/repo NK_NO_EVIDENCE=1 /verif/check $prop > $t/out.txt 2>&1
+  rc=$?
+  grep -B1 "^VIOLATION\|^ANALYSIS-BROKEN" $t/out.txt | grep -v "^--" | cut -c1-${WIDTH:-400} | head -${TAIL:-12}
+  echo "== $prop exit=$rc"
 done
 rm -rf $t
